@@ -25,13 +25,14 @@ fn field_chars() -> &'static [char] {
                 v.push(c as char);
             }
         }
-        v.extend(['😀', '\u{1}', '\u{7f}', '\u{a0}', '\u{0}', '\u{b}']);
+        v.extend(['😀', '\u{1}', '\u{7f}', '\u{a0}', '\u{0}', '\u{b}', '\u{301}', '１', 'ｅ']);
         v
     })
 }
 
 /// Strings that look special to parsers or spreadsheets.
-const WORDS: [&str; 30] = [
+const WORDS: [&str; 32] = [
+    "~", "NULL",
     // pairs that collide under common 32-bit hashes (FNV-1a, CRC32, Java hashCode)
     "costarring", "liquid", "declinate", "macallums", "altarage", "zinke", "Aa", "BB", "plumless", "buckeroo",
     "NA", "true", "false", "null", "None", "%3B", "%09", "1e5", "-0", "+1", "0x10", "inf", "NaN", "1.0", "00", ".", "-", "+", "\\N", "\\t",
@@ -273,7 +274,7 @@ fn attr_chars(d: Dialect) -> &'static [char] {
                 v.push(c);
             }
         }
-        v.extend(['é', '中', '😀', '\u{a0}', '\u{7f}', '\u{1}']);
+        v.extend(['é', '中', '😀', '\u{a0}', '\u{7f}', '\u{1}', '\u{301}', '１']);
         v
     };
     match d {
@@ -313,7 +314,7 @@ fn gen_gff(w: &World, d: Dialect) -> Vec<GffModel> {
         w.probe("many_records_regime");
     }
     loop {
-        let go = if many { w.more_p(v.len() as u64, 80, 30, 31) } else { w.more(v.len() as u64, 4) };
+        let go = if many { w.more_p(v.len() as u64, 300, 100, 101) } else { w.more(v.len() as u64, 4) };
         if !go {
             break;
         }
@@ -978,8 +979,8 @@ fn probes_from_cuts(w: &W, data: &[u8], cuts: &[usize]) {
 
 // "0x10" is deliberately absent: the csv crate documents hexadecimal integers as valid numbers.
 // blank-padded numbers (" 7") are absent too: a parser that trims blanks would be lenient, not wrong.
-const BAD_NUMBERS: [&str; 12] = [
-    "abc", "", "-5", "1.5", "184467440737095516160", "-0", "0x", "18446744073709551616", "1e3", "1_000", "٣", "1,5",
+const BAD_NUMBERS: [&str; 15] = [
+    "abc", "", "-5", "1.5", "184467440737095516160", "-0", "0x", "18446744073709551616", "1e3", "1_000", "٣", "1,5", "１２", "~", "None",
 ];
 const BAD_PHASES: [&str; 8] = ["3", "7", "255", "256", "-1", "x", "", "0.0"];
 
